@@ -547,3 +547,100 @@ func VH10d_close_race() {
 	verif.Assert(core.ZZSocketPipes(sock) == 0, lab+"/socket-still-tracks-pipes")
 	verif.Reach("close-race-census")
 }
+
+// VH10e_churn: R rounds of creating and closing the parts of one socket before
+// the socket itself is closed: in every round a context is opened, a Recv is
+// parked on it and the context closed (patterns with contexts); a further
+// listener is started, takes a connection and is closed; a further dialer is
+// started against a present peer and closed; a connection is dropped by its
+// peer. Whatever the round, closing a part releases what belongs to it at once
+// (the parked call returns a closed error, the listening address is free, the
+// closed dialer makes no further attempt), and after the final Close nothing is
+// left -- the sixth round leaves as little behind as the first.
+func VH10e_churn() {
+	R := verif.Param("R", 6)
+	protos := []string{"req", "rep", "sub", "surveyor", "respondent", "pair", "bus", "pub"}
+	proto := protos[verif.Choice("proto", len(protos))]
+	lab := "C10/" + proto + "/churn"
+	sock := vp.New(proto)
+	vt.Install()
+	verif.Assert(sock.SetOption(mangos.OptionDialAsynch, true) == nil, lab+"/asynch")
+	side := vt.Listen(sock, "a")
+	var tps []*vt.Pipe
+	for i := 0; i < R; i++ {
+		sfx := string(rune('0' + i))
+		// a context with a parked Recv
+		if c, err := sock.OpenContext(); err == nil {
+			var rerr error
+			g := verif.Go("ctx-recv", func() { _, rerr = c.RecvMsg() })
+			verif.Quiesce()
+			verif.Assert(c.Close() == nil, lab+"/context-close")
+			verif.Quiesce()
+			verif.Assert(g.Done(), lab+"/recv-still-parked-on-a-closed-context")
+			if g.Done() {
+				verif.Assert(rerr != nil, lab+"/recv-on-a-closed-context-succeeds")
+			}
+			verif.Assert(c.Close() != nil, lab+"/second-context-close-succeeds")
+		}
+		// a further listener
+		l, err := sock.NewListener("vt://l"+sfx, nil)
+		verif.Assert(err == nil && l.Listen() == nil, lab+"/listen")
+		if err != nil {
+			return
+		}
+		tl := vt.T.Listeners["l"+sfx]
+		verif.Assert(tl != nil, lab+"/listener-not-listening")
+		if tl == nil {
+			return
+		}
+		tps = append(tps, tl.Connect("lc"+sfx))
+		verif.Quiesce()
+		verif.Assert(l.Close() == nil, lab+"/listener-close")
+		verif.Quiesce()
+		verif.Assert(vt.T.Listeners["l"+sfx] == nil, lab+"/listening-address-left-after-listener-close")
+		// a further dialer against a present peer
+		d, err := sock.NewDialer("vt://peer"+sfx, nil)
+		verif.Assert(err == nil && d.Dial() == nil, lab+"/dial")
+		verif.Quiesce()
+		td := vt.T.Dialers[len(vt.T.Dialers)-1]
+		verif.Assert(d.Close() == nil, lab+"/dialer-close")
+		if len(td.Pipes) > 0 && i%2 == 1 {
+			td.Pipes[len(td.Pipes)-1].Drop() // its connection goes too: the closed dialer must not come back
+		}
+		n := len(td.Dials)
+		for k := 0; k < 2; k++ {
+			verif.FireTimer()
+		}
+		verif.Assert(len(td.Dials) == n, lab+"/connection-attempt-by-a-closed-dialer")
+		// a connection of the first listener comes and goes
+		p := side.Peer("c" + sfx)
+		if i%3 != 2 {
+			p.Drop()
+			verif.Quiesce()
+		} else {
+			tps = append(tps, p)
+		}
+	}
+	verif.Reach("churned")
+	verif.Assert(sock.Close() == nil, lab+"/close")
+	verif.Quiesce()
+	verif.Assert(verif.PendingCallbackTimers() == 0, lab+"/stoppable-timer-still-armed-after-close")
+	for i := 0; i < 4; i++ {
+		verif.FireTimer()
+	}
+	verif.Quiesce()
+	verif.Assert(verif.LiveGoroutines() == 0, lab+"/goroutines-left-after-close")
+	verif.Assert(verif.PendingTimers() == 0, lab+"/timers-left-after-close")
+	for _, p := range tps {
+		verif.Assert(p.Closed, lab+"/connection-left-open-after-close")
+	}
+	for _, d := range vt.T.Dialers {
+		for _, p := range d.Pipes {
+			verif.Assert(p.Closed, lab+"/dialed-connection-left-open-after-close")
+		}
+	}
+	verif.Assert(len(vt.T.Listeners) == 0, lab+"/listening-address-left-after-close")
+	verif.Assert(core.ZZIDsInUse() == 0, lab+"/pipe-ids-left-after-close")
+	verif.Assert(core.ZZSocketPipes(sock) == 0, lab+"/socket-still-tracks-pipes")
+	verif.Reach("churn-census")
+}
